@@ -234,3 +234,21 @@ CHECKS["C18"] = {
     "technique": "contract-based deductive verification: symbolic execution of the real writer and reader against library contracts, z3-discharged round-trip postconditions per skeleton; native replay with real uproot files",
 }
 NOT_APPLICABLE.pop("C18", None)
+
+CHECKS["C16"] = {
+    "category": "proof",
+    "text": ("Skeleton-bounded, value-unbounded: the real Workspace.combine (with _join_items / _join_versions / _join_channels / _join_observations / "
+             "_join_measurements / _join_parameter_configs), prune, rename, _prune_and_rename, sorted and Workspace.__init__ are executed symbolically "
+             "on workspace skeletons whose numbers are independent symbols; the operands of a combination use disjoint symbols, so the identical and the "
+             "conflicting overlap are the two branches of the content comparisons and both are explored. Proved per path for all numbers: a combination "
+             "is refused (InvalidWorkspaceOperation / ValueError) exactly when the statement says so (common names under 'none', same name with different "
+             "content, POI or parameter configuration under 'outer', different versions, unknown join, merging without outer join) and otherwise holds "
+             "every channel / observation / measurement of both operands once and unchanged (primary side first under one-sided joins, samples united "
+             "under channel merging); prune removes exactly the named items; rename is a relabelling (POI and parameter configurations along) undone by "
+             "the inverse renaming; sorted keeps the content, is idempotent and equal for permuted inputs; every result is a new Workspace validated "
+             "against workspace.json, operands are unmodified and share no mutable state with it. Likelihood clauses are derived via C01 / C02 and "
+             "compared natively in the replay only."),
+    "note": "structure (names, list lengths, selections, permutations) bounded by the listed skeletons; schema verdict assumed; deepcopy modelled",
+    "technique": "contract-based deductive verification: symbolic execution of the real workspace operations on skeletons with symbolic content, both branches of every content comparison, z3-discharged postconditions against specification functions of the statement; native replay incl. likelihood comparison",
+}
+NOT_APPLICABLE.pop("C16", None)
